@@ -18,6 +18,7 @@ from dst import boot, seeds
 VERIF = os.path.dirname(os.path.dirname(os.path.abspath(__file__)))
 CHUNK = 40
 SCENARIO_WALL_LIMIT_S = 15.0
+_ERR_SHOWN = 0
 
 
 class ScenarioTimeout(BaseException):
@@ -40,6 +41,16 @@ def execute_limited(mod, ns, scn, limit=SCENARIO_WALL_LIMIT_S):
         return mod.execute(ns, scn), False
     except ScenarioTimeout:
         return None, True
+    except Exception:  # noqa: BLE001
+        # the scenario could not even be set up on this tree (e.g. a fluid constructor that now raises):
+        # inconclusive, reported in the evidence; the first few tracebacks go to stderr
+        global _ERR_SHOWN
+        if _ERR_SHOWN < 3:
+            _ERR_SHOWN += 1
+            import traceback
+
+            traceback.print_exc()
+        return None, "error"
     finally:
         signal.setitimer(signal.ITIMER_REAL, 0)
         signal.signal(signal.SIGALRM, old)
@@ -74,7 +85,8 @@ def _worker_chunk(args):
             if timed_out:
                 # inconclusive: neither a pass nor a violation; excluded from the determinism cross-check
                 digests.append((k, "TIMEOUT"))
-                agg["timeouts"] = agg.get("timeouts", 0) + 1
+                key = "timeouts" if timed_out is True else "setup_errors"
+                agg[key] = agg.get(key, 0) + 1
                 done += 1
                 continue
             digests.append((k, res.digest()))
